@@ -297,7 +297,7 @@ func runC11(c *core.Ctx) {
 	}
 
 	// --- representations
-	m := c.N(4000, 100000)
+	m := c.N(4000, 2000000)
 	for i := int64(0); i < m; i++ {
 		if !c.Mine("repr", i) {
 			continue
